@@ -109,6 +109,26 @@ func checkC20Parse(c *Ctx, n int) {
 			}
 			sd.Fields = append(sd.Fields, FieldDesc{Name: fmt.Sprintf("C%d", k), Exported: true, Tag: tag, Kind: "s", Sub: &StructDesc{}})
 		}
+		// half of the time the commands are the subcommands of a command one or two levels down, which
+		// has siblings (and itself) with names and aliases of their own: those mean nothing here
+		var path, outer []string
+		for lvl := r.Intn(3); lvl > 0 && r.Intn(2) == 0 || lvl == 2; lvl-- {
+			own := fmt.Sprintf("grp%c", 'a'+rune(lvl))
+			ownAlias := fmt.Sprintf("g%c", 'a'+rune(lvl))
+			sib, sibAlias := fmt.Sprintf("sib%c", 'a'+rune(lvl)), fmt.Sprintf("s%c", 'a'+rune(lvl))
+			if seen[own] || seen[ownAlias] || seen[sib] || seen[sibAlias] {
+				break
+			}
+			outer = append(outer, own, ownAlias, sib, sibAlias)
+			path = append([]string{own}, path...)
+			if r.Intn(3) == 0 {
+				path[0] = ownAlias
+			}
+			sd = &StructDesc{Fields: []FieldDesc{
+				{Name: "Sib", Exported: true, Tag: "command:" + strconv.Quote(sib) + " alias:" + strconv.Quote(sibAlias), Kind: "s", Sub: &StructDesc{}},
+				{Name: "Grp", Exported: true, Tag: "command:" + strconv.Quote(own) + " alias:" + strconv.Quote(ownAlias), Kind: "s", Sub: sd},
+			}}
+		}
 		cs := &Case{Name: "app", NsDelim: ".", EnvNsDelim: "_"}
 		cs.Build = append(cs.Build, BuildOp{Kind: "addgroup", Target: 1, Short: "Application Options", Struct: sd})
 		// the word: missing, at a chosen distance from a name (around the half-length threshold), or arbitrary
@@ -120,6 +140,13 @@ func checkC20Parse(c *Ctx, n int) {
 			given = false
 		case 1:
 			word = genNearWord(c, names)
+		case 2, 3:
+			if len(outer) > 0 {
+				// the name or alias of a command of an outer level
+				word = outer[r.Intn(len(outer))]
+				break
+			}
+			fallthrough
 		default:
 			half := (len(target) + 1) / 2
 			k := half - 1 + r.Intn(3)
@@ -131,16 +158,19 @@ func checkC20Parse(c *Ctx, n int) {
 		if given && (word == "" || seen[word] || strings.HasPrefix(word, "-") || strings.Contains(word, "%")) {
 			continue
 		}
-		argv := []string{}
+		argv := append([]string{}, path...)
 		if given {
-			argv = []string{word}
+			argv = append(argv, word)
 		}
 		cs.Ops = []Op{{Kind: "parse", Args: argv}}
 		cs.Description = describeOps(cs)
 		c.RunCases([]*Case{cs}, func(cr *CaseResult) {
 			c.classifyCase(cr)
 			for _, o := range parseBlocks(cr) {
-				in := map[string]interface{}{"names": names, "visible": visible, "word": word, "word_given": given}
+				in := map[string]interface{}{"names": names, "visible": visible, "word": word, "word_given": given, "argv": argv}
+				if len(path) > 0 {
+					c.Class(fmt.Sprintf("c20/nested depth=%d", len(path)))
+				}
 				if o.panic != "" {
 					in["case_file"] = c.saveCase(cr)
 					c.Check("diagnostic-no-panic", false, "C20:diag-panic", in, o.panic, "an error message")
